@@ -396,4 +396,54 @@ example : RW sSt 1000 8 ∧ 3 < 8 ∧ (∀ j, j < 3 → sSt.data (1000 + j) ≠ 
   · have : 1000 + j ≠ 1003 := by omega
     simp [sSt, this]
 
+/-! ## on the tight memory: nothing but the declared cells exists, and nothing faults -/
+
+/-- exactly the cells `[d, d+k)` are mapped, readable and writable: every access outside them faults -/
+def Tight (st : St) (d k : Nat) : Prop :=
+  ∀ a, st.mapped a = decide (d ≤ a ∧ a < d + k) ∧ st.wr a = decide (d ≤ a ∧ a < d + k) ∧
+       st.rd a = decide (d ≤ a ∧ a < d + k)
+
+theorem Tight.rw {st : St} {d k : Nat} (h : Tight st d k) : RW st d k := by
+  intro i hi
+  obtain ⟨h1, h2, h3⟩ := h (d + i)
+  have : d ≤ d + i ∧ d + i < d + k := by omega
+  exact ⟨by rw [h1]; simpa using this, by rw [h2]; simpa using this, by rw [h3]; simpa using this⟩
+
+/-- **`mem_prim_set` on the tight memory** (only the `len mod 2^32` addressed cells exist): no fault, no
+stray access — the primitive touches nothing but those cells, for every length, address and value. -/
+theorem mem_prim_set_C18_tight (dest len value : Nat) (st : St) (ht : Tight st dest (len % U32))
+    (h0 : st.strays = []) :
+    ∃ st', exec (mem_prim_set 1 dest len value) st = .ok ((), st') ∧ st'.strays = [] ∧
+      ∀ i, i < len % U32 → st'.data (dest + i) = value % 256 := by
+  obtain ⟨st', he, hf⟩ := mem_prim_set_ok dest len value st ht.rw
+  exact ⟨st', he, by rw [hf.same.strays, h0], hf.inside⟩
+
+/-- **`memset_s` on the tight memory** (only the `dmax` declared cells exist, object size unknown): for ALL
+arguments — valid or not — the call returns (no fault) without a stray access: neither the success path nor
+any error path touches a byte outside `dest[0..dmax)`. -/
+theorem memset_s_C18_tight (dest dmax value n : Nat) (st : St) (ht : Tight st dest dmax) (h0 : st.strays = []) :
+    ∃ code st', exec (memset_s dest dmax value n none) st = .ok (code, st') ∧ st'.strays = [] := by
+  obtain ⟨code, st', he, ho, _⟩ := memset_s_spec dest dmax value n none st ht.rw
+  refine ⟨code, st', he, ?_⟩
+  by_cases hc : code = EOK
+  · rw [(ho.ok hc).1.same.strays, h0]
+  · rw [(ho.fail hc).1.strays, h0]
+
+/-- **`memzero_s` on the tight memory**: for all arguments the call returns without fault or stray access. -/
+theorem memzero_s_C18_tight (dest len : Nat) (destbos : Bos) (st : St) (ht : Tight st dest len)
+    (h0 : st.strays = []) :
+    ∃ code st', exec (memzero_s dest len destbos) st = .ok (code, st') ∧ st'.strays = [] := by
+  obtain ⟨code, st', he, ho, _⟩ := memzero_s_spec dest len destbos st ht.rw
+  refine ⟨code, st', he, ?_⟩
+  by_cases hc : code = EOK
+  · rw [(ho.ok hc).same.strays, h0]
+  · rw [(ho.fail hc).1.strays, h0]
+
+/-- a tight memory of 100 cells at 4096 -/
+def tSt : St :=
+  { data := fun _ => 7, mapped := fun a => decide (4096 ≤ a ∧ a < 4096 + 100), rd := fun a => decide (4096 ≤ a ∧ a < 4096 + 100),
+    wr := fun a => decide (4096 ≤ a ∧ a < 4096 + 100) }
+
+example : Tight tSt 4096 100 ∧ tSt.strays = [] := ⟨fun _ => ⟨rfl, rfl, rfl⟩, rfl⟩
+
 end SafeC.Props.C18
